@@ -82,6 +82,7 @@ form('tpl-nested', { ops: ['tpl'] }, F => `\`a\${\`b\${${F.loc()}}\`}c\``)
 form('tpl-with-plus', { ops: ['tpl', '+'] }, F => `\`a\${${F.loc()} + ${F.f()}}c\``)
 form('tpl-obj-toprim-last', { ops: ['tpl'] }, F => `\`a\${${F.f()}}b\${${F.o()}}\``)
 form('tpl-bare-plus-then-effect', { ops: ['tpl'], kf: 'D6', cfg: 'TPL_ONLY' }, F => `\`\${${F.s()} + ${F.f()}}-\${${F.f()}}\``)
+form('tpl-bare-seq-subst', { ops: ['tpl'] }, F => `\`\${${F.f()}, ${F.s()}}-\${${F.f()}}\``)
 form('tpl-nosubst', { ops: [], instr: false }, F => `\`plain${F.id()}\``)
 form('tpl-alias', { ops: ['tpl'] }, F => { const a = F.loc(); return `\`\${${a}}-\${(${a} = ${F.s()}, ${F.f()})}-\${${a}}\`` })
 form('tpl-tagged', { ops: [], instr: false }, F => `w.tag${F.id()}\`a\${${F.loc()}}b\``)
@@ -137,6 +138,12 @@ form('opt-invocation', { ops: ['trim'], instr: false }, F => `${F.loc()}.trim?.(
 form('opt-invocation-then-method', { ops: ['trim'] }, F => `w.o${F.id()}.f1?.(${F.s()}).trim()`)
 form('opt-invocation-undefined-then-method', { ops: ['trim'] }, F => `w.o${F.id()}.u1?.(${F.s()}).trim()`)
 form('opt-prototype-recv', { ops: ['trim'], instr: false }, F => `w.X${F.id()}?.prototype.trim()`)
+form('opt-invocation-noncallable-string', { ops: ['trim'] }, F => `w.o${F.id()}.s1?.(${F.f()}).trim()`)
+form('opt-invocation-noncallable-number', { ops: ['concat'] }, F => `w.o${F.id()}.i1?.(${F.f()}).concat(${F.s()})`)
+form('opt-invocation-spread-args', { ops: ['trim'] }, F => `w.o${F.id()}.f1?.(...w.it${F.id()}).trim()`)
+form('opt-invocation-mixed-spread-args', { ops: ['concat'] }, F => `w.o${F.id()}.f1?.(${F.s()}, ...w.arr${F.id()}, ${F.f()}).concat(${F.s()})`)
+form('opt-invocation-computed-callee', { ops: ['trim'] }, F => `w.o${F.id()}[w.k${F.id()}]?.(${F.s()}).trim()`)
+form('opt-ident-invocation', { ops: ['trim'] }, F => { const a = F.loc('w.f' + F.id()); return `${a}?.(${F.s()}, ...w.it${F.id()}).trim()` })
 form('opt-unlisted', { ops: [], instr: false }, F => `${F.loc()}?.charAt(0)`)
 form('opt-arg-opt', { ops: ['concat', 'trim'], kf: 'D17' }, F => `${F.loc()}?.concat(${F.loc()}?.trim())`)
 form('opt-nested-arg-guard', { ops: ['trim', 'concat'], kf: 'D17' }, F => { const o = `w.o${F.id()}`; return `${o}?.n1?.trim().concat(${o}?.s2.trim())` })
